@@ -889,6 +889,47 @@ func (c *Cluster) EmitEvent(id string, kind string, msg message.Message) int {
 	return n
 }
 
+// EmitEventBurst writes the EVENT frames of all msgs on the registered (control) connection with one write: the
+// receiver finds them back to back in its read buffer.  ids[i] names msgs[i]; returns the number of events written.
+func (c *Cluster) EmitEventBurst(ids []string, kind string, msgs []message.Message) int {
+	cn := c.ControlConn()
+	if cn == nil {
+		return 0
+	}
+	var all bytes.Buffer
+	n := 0
+	for i, msg := range msgs {
+		frm := frame.NewFrame(cn.Version, -1, msg)
+		h := ""
+		if raw, err := frame.NewRawCodec().ConvertToRawFrame(frm); err == nil {
+			h = HashBody(raw.Header.Flags, raw.Header.OpCode, raw.Body)
+		}
+		v4only := false
+		if sc, ok := msg.(*message.SchemaChangeEvent); ok {
+			v4only = sc.Target == primitive.SchemaChangeTargetFunction || sc.Target == primitive.SchemaChangeTargetAggregate
+		}
+		if cn.compressor != nil {
+			frm.SetCompress(true)
+		}
+		var buf bytes.Buffer
+		if err := cn.codec.EncodeFrame(frm, &buf); err != nil {
+			continue
+		}
+		if !cn.emitIfOpen("BackendEvent", "id", ids[i], "b", cn.ID, "host", cn.N.IP, "kind", kind, "h", h, "v4only", v4only) {
+			break
+		}
+		all.Write(buf.Bytes())
+		n++
+	}
+	cn.wmu.Lock()
+	_, err := cn.nc.Write(all.Bytes())
+	cn.wmu.Unlock()
+	if err != nil {
+		return 0
+	}
+	return n
+}
+
 // HashBody identifies (flags without the compression bit, opcode, uncompressed body).
 func HashBody(flags primitive.HeaderFlag, op primitive.OpCode, body []byte) string {
 	h := sha256.New()
